@@ -405,6 +405,10 @@ BOUNDARY = [
     dict(n1=1, minpreflistlength=1, maxpreflistlength=1), dict(maxpreflistlength=3, minpreflistlength=3), dict(n1=2, n2=5, maxpreflistlength=4, upperquotas=6),
     dict(upperquotas=3, lowerquotas=3), dict(ties1=0.0, ties2=1.0), dict(ties1=1.0, ties2=0.0), dict(lecturertargets=4, lecturerlowerquotas=2), dict(lecturerlowerquotas=2, lecturertargets=2),
     dict(lowerquotas=0, lecturerlowerquotas=0, lecturertargets=0), dict(n2=1, minpreflistlength=1, maxpreflistlength=1, upperquotas=1, lowerquotas=0), dict(numberinstances=1), dict(skew=1.0),
+    # every count at its smallest documented value, every sum bound met with equality
+    dict(n3=1), dict(lecturerupperquotas=1, lecturertargets=1, lecturerlowerquotas=1), dict(lecturerupperquotas=1, lecturertargets=0, lecturerlowerquotas=0),
+    dict(n1=1, n2=1, n3=1, minpreflistlength=1, maxpreflistlength=1, upperquotas=1, lowerquotas=1, lecturerupperquotas=1, lecturertargets=1, lecturerlowerquotas=1),
+    dict(upperquotas=3), dict(maxpreflistlength=3), dict(minpreflistlength=1), dict(ties1=0.0), dict(ties1=1.0), dict(ties2=0.0), dict(ties2=1.0),
 ]
 
 
